@@ -351,6 +351,18 @@ def judge_fault(platform, case, r, clean):
     if r.kind == "construct":
         v("construct_failed", repr(r.exc))
         return viols
+    if state == "gone0":
+        if r.kind == "leak":
+            viols.append((f"leak:{type(r.exc).__name__}:{platform}:{op}", desc + " | " + getattr(r, "tb", "")[-700:]))
+        elif r.kind in ("NoSuchProcess", "ZombieProcess", "AccessDenied") and r.exc.pid != pid:
+            v("error_without_pid", f"exception pid={r.exc.pid!r}")
+        elif r.kind == "ZombieProcess" and platform not in PROCFS_NSP:
+            v("zombie_reported_for_gone_pid")
+        elif r.kind == "AccessDenied" and clean.kind != "AccessDenied":
+            v("esrch_reported_as_ad")
+        if not faults:
+            return viols
+        state = "gone"
     if not faults:
         if r.kind != clean.kind:
             v("error_without_fault")
@@ -362,8 +374,6 @@ def judge_fault(platform, case, r, clean):
     crisp = mode == "from"
     pid0rule = platform in PID0_RULE and pid == 0 and case.get("pid0_listed", True)
     classes = {fault_class(platform, f) for f in faults}
-    procfs_enoent = "enoent" in classes and all(n.startswith("fs:") for (_i, n, f) in r.fired
-                                                if fault_class(platform, f) == "enoent")
     allowed = set()        # subset of {"NSP", "AD", "value", ("OSError", errno, winerror)}
     for (_fi, fired_name, f) in r.fired:
         k = fault_class(platform, f)
@@ -397,8 +407,8 @@ def judge_fault(platform, case, r, clean):
     # (Windows proc_info, SunOS uids()/gids(), SunOS "link not resolvable" handlers); for ESRCH and unrelated
     # errnos only the handlers named here are deliberate, everything else must still raise.
     if not crisp:
-        if classes & {"perm", "enoent", "enoent_procfs", "partial"} or mode == "pair":
-            allowed.add("value")
+        if classes & {"perm", "enoent", "partial"} or mode == "pair" or pid0rule:
+            allowed.add("value")        # (under the PID-0 rule every error is a permission error)
         if platform == "sunos" and op in ("L:exe", "exe_layer") and all(n == "fs:readlink" for _i, n, _f in r.fired):
             allowed.add("value")        # SunOS exe(): readlink failure -> guess from cmdline (comment in the code)
     if platform == "sunos" and pid == 0:
@@ -458,7 +468,7 @@ def judge_fault(platform, case, r, clean):
         if "value" not in allowed:
             what = {"nsp": "esrch_swallowed", "perm": "perm_swallowed", "enoent": "enoent_swallowed",
                     "other": "other_errno_swallowed", "partial": "other_errno_swallowed"}[sorted(classes)[0]]
-            v(what, "fail-all must raise")
+            v(what, "fail-all must raise" if crisp else "no documented fall-back swallows this error here")
         elif clean.kind == "value" and not shape_ok(r.value, clean.value):
             v("malformed_value_under_fault", f"clean={clean.value!r}"[:300])
     return viols
@@ -477,6 +487,10 @@ def fault_cases(platform, opname, pid, n, tier, pid0_listed=True):
     base = dict(k="fault", platform=platform, op=opname, pid=pid)
     if not pid0_listed:
         base["pid0_listed"] = False
+    if pid != 0:
+        # the pid is gone before the call starts and every native fails with ESRCH: whatever the method
+        # consults (ppid_map, pids, pid_exists...) the answer must be a psutil error or a value, never a leak
+        out.append(dict(base, mode="from", i=0, faults=[dict(errno=E.ESRCH)], state="gone0"))
     for i in range(n):
         for f in faults:
             k = fault_class(platform, f)
@@ -507,7 +521,7 @@ def run_fault_case(platform, case, clean=None):
     else:
         one = {case["i"]: case["faults"][0], case["j"]: case["faults"][1]}
     state = case["state"]
-    start_state = "zombie" if state == "zombie" else "live"
+    start_state = {"zombie": "zombie", "gone0": "gone"}.get(state, "live")
     env = setup(platform)
     env["w"].gone_on_fire = state == "gone"
     r = run_op(platform, op, pid=pid, one=one, from_=from_, state=start_state, pid0_listed=listed)
@@ -749,9 +763,14 @@ def compare_record(platform, opname, r, ex, env, w):
         g, wv = f"<{type(e).__name__}: {e}> {got!r}", want
     if g != wv or (isinstance(wv, (int, float, str)) and type(g) is not type(wv) and not isinstance(g, type(wv))):
         mech = f"slot_mismatch:{platform}:{opname}"
+        more = ""
         if platform == "sunos" and opname in ("terminal", "L:terminal") and w.no_tty and got is not None:
             mech = "sunos_terminal_ignores_PRNODEV"
-        viols.append((mech, f"{where}: got {g!r} want (from the native slots) {wv!r}"))
+            more = (" | reproducer: cext.proc_basic_info() hands back ttynr == cext.PRNODEV (no controlling "
+                    "terminal) while /proc/<pid>/path/0 -> /dev/pts/3 (an inherited descriptor); Process.terminal() "
+                    "must be None but returns the link target: the slot value is wrapped in wrap_exceptions(...), "
+                    "so `tty != cext.PRNODEV` compares a function object and is always true")
+        viols.append((mech, f"{where}: got {g!r} want (from the native slots) {wv!r}{more}"))
     return True, viols
 
 
@@ -821,11 +840,11 @@ def sys_cases(platform):
     return fns
 
 
-def run_sysfn(platform, fn, salt):
+def run_sysfn(platform, fn, salt, PID=PID):
     """-> (compared, viols)"""
     env = setup(platform)
     w, ps, pst = env["w"], env["ps"], env["platstub"]
-    w.reset(salt=salt)
+    w.reset(salt=salt, pid=PID)
     fam = fam_of(platform)
     viols = []
 
@@ -1107,8 +1126,13 @@ def run_ifaddrs(platform, case):
             viols.append((f"fields_differ_from_docs:{platform}:net_if_addrs", where))
         if x.broadcast != want_b:
             mech = "windows_broadcast_discarded" if (win and x.broadcast is None) else f"broadcast_wrong:{platform}"
+            more = ""
+            if mech == "windows_broadcast_discarded":
+                more = (" | reproducer: as Windows, cext.net_if_addrs() -> [(name, AF_INET, addr, netmask, None, None)]; "
+                        "psutil.net_if_addrs() computes _common.broadcast_addr(nt) and calls nt._replace(broadcast=...) "
+                        "without keeping the result, so broadcast stays None")
             viols.append((mech, where + f" want broadcast {want_b!r} (HISTORY.rst 7.0.0: 'net_if_addrs() also "
-                          f"returns the broadcast address' on Windows)"))
+                          f"returns the broadcast address' on Windows){more}"))
         if (x.netmask, x.ptp) != (mask, ptp):
             viols.append((f"ifaddr_slot_mismatch:{platform}", where))
     return viols
@@ -1268,10 +1292,10 @@ def plan(tier, seed):
     return shards
 
 
-def record_variants(platform, tier, env):
-    out = [dict(salt=1), dict(salt=2)]
+def record_variants(platform, tier, env, salts=(1, 2)):
+    out = [dict(salt=s0) for s0 in salts]
     if tier == "thorough":
-        out += [dict(salt=3), dict(salt=7), dict(salt=11)]
+        out += [dict(salt=salts[0] + 17), dict(salt=salts[1] + 17), dict(salt=salts[0] + 40)]
     if platform != "windows":
         out.append(dict(salt=1, no_tty=True))
         ttys = env["ttys"]
@@ -1287,7 +1311,7 @@ def do_record_case(platform, case, acc):
     env = setup(platform)
     w = env["w"]
     kw = {k: case[k] for k in ("salt", "no_tty", "tty_rdev", "status") if k in case}
-    r = run_op(platform, case["op"], pid=PID, **kw)
+    r = run_op(platform, case["op"], pid=case.get("pid", PID), **kw)
     ex = expectations(platform, w, env, no_tty=case.get("no_tty", False))
     compared, viols = compare_record(platform, case["op"], r, ex, env, w)
     if platform == "windows":
@@ -1326,6 +1350,9 @@ def run_shard(shard):
     env = setup(platform)
     w = env["w"]
     tier = shard.get("tier", "quick")
+    seed = int(shard.get("seed", 0) or 0)
+    pid = PID + 13 * (seed % 1000)          # the seed only moves the pid and the record values
+    salts = [1 + 3 * (seed % 1000), 2 + 3 * (seed % 1000)]
 
     if kind == "faults" or kind == "static":
         extra = acc.extra.setdefault(f"platform:{platform}:{kind}", {})
@@ -1333,14 +1360,14 @@ def run_shard(shard):
         per_op = {}
         sites = set()
         for opname in env["ops"]:
-            clean = run_op(platform, opname, pid=PID)
+            clean = run_op(platform, opname, pid=pid)
             n = len(clean.faultable)
             per_op[opname] = n
             for c in clean.faultable:
                 sites.add(c.name)
             acc.count("native_call_points", n)
             acc.count("native_call_points:" + platform, n)
-            for case in fault_cases(platform, opname, PID, n, tier):
+            for case in fault_cases(platform, opname, pid, n, tier):
                 do_fault_case(platform, case, acc, clean)
         layer = sorted(o[2:] for o in per_op if o.startswith("L:"))
         extra.update(operations=len(per_op), layer_methods=len(layer), layer_methods_list=layer,
@@ -1350,15 +1377,15 @@ def run_shard(shard):
         acc.exhaustive = True
     elif kind == "static":
         # (1) records
-        for var in record_variants(platform, tier, env):
+        for var in record_variants(platform, tier, env, salts):
             only = var.pop("only", None)
             for opname in env["ops"]:
                 if only is None or opname in only:
-                    do_record_case(platform, dict(k="record", platform=platform, op=opname, **var), acc)
-        for salt in ((1, 2) if tier == "quick" else (1, 2, 3, 7, 11)):
+                    do_record_case(platform, dict(k="record", platform=platform, op=opname, pid=pid, **var), acc)
+        for salt in (salts if tier == "quick" else salts + [s0 + 17 for s0 in salts] + [salts[0] + 40]):
             for fn in sys_cases(platform):
-                case = dict(k="sysfn", platform=platform, fn=fn, salt=salt)
-                compared, viols = run_sysfn(platform, fn, salt)
+                case = dict(k="sysfn", platform=platform, fn=fn, salt=salt, pid=pid)
+                compared, viols = run_sysfn(platform, fn, salt, pid)
                 if compared:
                     acc.count("records_compared")
                     acc.count("sysfn_compared:" + platform)
@@ -1402,7 +1429,7 @@ def run_shard(shard):
                 r, viols = do_record_case(platform, case, acc)
                 print("REPLAY", json.dumps(case), "->", describe(r))
             elif k == "sysfn":
-                compared, viols = run_sysfn(platform, case["fn"], case["salt"])
+                compared, viols = run_sysfn(platform, case["fn"], case["salt"], case.get("pid", PID))
                 acc.case(case, compared, viols)
                 print("REPLAY", json.dumps(case))
             elif k == "ifaddrs":
